@@ -266,7 +266,11 @@ def run(ctx, rep, tier):
 
 
 # ---------------------------------------------------------------------------------------------------------------- C15.i
-CONVERTER_OF = {"TOKEN:CHAR_CONSTANT": {"_convert_char_const"}, "TOKEN:RADIX_NUMBER": {"_convert_int"}, "TOKEN:STRING": {"_convert_string", "_convert_binary_string"}}
+CONVERTER_OF = {"TOKEN:CHAR_CONSTANT": {"_convert_char_const"}, "TOKEN:RADIX_NUMBER": {"_convert_int"}, "TOKEN:STRING": {"_convert_string", "_convert_binary_string"},
+                # F-108: the suffixed literals are tokens of their own (nothing can be skipped between the string and its suffix); their text reaches the converter
+                # without the suffix character, through _without_suffix
+                "TOKEN:STRING_CASE": {"_convert_string"}, "TOKEN:STRING_BINARY": {"_convert_binary_string"}}
+SUFFIXED = {"TOKEN:STRING_CASE", "TOKEN:STRING_BINARY"}
 
 
 def _token_conversion_discipline(ctx, rep, tier):
@@ -293,11 +297,42 @@ def _token_conversion_discipline(ctx, rep, tier):
             conv = set().union(*(CONVERTER_OF.get(k, set()) for k in kinds)) if kinds else set()
             if not conv or not all(k in CONVERTER_OF for k in kinds):
                 continue
+            # an arm shared by several labels (`expr.data in [..]`, told apart inside) may call the converter of any of them
+            for lab2, arm2 in arms:
+                if lab2 != lab and arm2 is arm:
+                    try:
+                        conv |= set().union(*(CONVERTER_OF.get(k, set()) for k in g.child_at(lab2, 0)))
+                    except AnalysisError:
+                        pass
             aliases = {"expr.children[0]"}
+            stripped = set()          # aliases that hold the token without its suffix character
+
+            def alias_kind(v):
+                t = ast.unparse(v)
+                if t in aliases:
+                    return "stripped" if t in stripped else "raw"
+                if isinstance(v, ast.Call) and ast.unparse(v.func) == "self._without_suffix" and len(v.args) == 1 and ast.unparse(v.args[0]) in aliases:
+                    return "stripped"
+                if isinstance(v, ast.IfExp):
+                    ks = {alias_kind(v.body), alias_kind(v.orelse)}
+                    if None not in ks:
+                        return "stripped" if "stripped" in ks else "raw"
+                return None
             for st in arm or []:
                 for a in ast.walk(st):
-                    if isinstance(a, ast.Assign) and len(a.targets) == 1 and isinstance(a.targets[0], ast.Name) and ast.unparse(a.value) in aliases:
-                        aliases.add(a.targets[0].id)
+                    if isinstance(a, ast.Assign) and len(a.targets) == 1 and isinstance(a.targets[0], ast.Name):
+                        k = alias_kind(a.value)
+                        if k is not None:
+                            aliases.add(a.targets[0].id)
+                            if k == "stripped":
+                                stripped.add(a.targets[0].id)
+            if kinds <= SUFFIXED:
+                # every read of the text must come from a suffix-stripped alias (the raw token text ends in the suffix letter)
+                for st in arm or []:
+                    for node in ast.walk(st):
+                        if isinstance(node, ast.Attribute) and node.attr == "value" and ast.unparse(node.value) in aliases and not isinstance(model.parents.get(node), ast.FormattedValue):
+                            rep.check(ast.unparse(node.value) in stripped, "C15.i", q, f"{lab}: the converter gets the token without its suffix",
+                                      f"`{ast.unparse(model.parents.get(node))[:70]}` hands the raw text of a suffixed literal (it ends in the suffix letter) to the converter", line=node.lineno)
             for st in arm or []:
                 for node in ast.walk(st):
                     if isinstance(node, ast.Attribute) and node.attr == "value" and ast.unparse(node.value) in aliases:
@@ -395,3 +430,36 @@ _run_m15 = run
 def run(ctx, rep, tier):
     _run_m15(ctx, rep, tier)
     _byte_range_and_dead_arms(ctx, rep, tier)
+
+
+# ---------------------------------------------------------------------------------------------------------------- C15.o
+def _no_literal_split_across_tokens(ctx, rep, tier):
+    """C15.o (F-108): blanks and comments are ignored between any two tokens. A literal whose spelling includes a letter suffix (`"..."i`, `"..."b`) must therefore be ONE
+    terminal: written as the string terminal followed by a keyword terminal, `"x" i` - a string followed by the name i, legal inside a concat-expression - is read as the
+    suffixed literal (the keyword beats the identifier). Every grammar rule is scanned for a literal terminal directly followed by a keyword terminal made of letters."""
+    g = ctx.grammar
+    rep.rule("C15.o", "no literal is split across tokens: a literal terminal is never directly followed by a letter keyword in a grammar rule")
+    lits = {"STRING", "CHAR_CONSTANT", "NUMBER", "RADIX_NUMBER", "HEX_NUMBER", "BIN_NUMBER"}
+    n = 0
+    for origin, rules in g.rules.items():
+        for r in rules:
+            exp = list(r.expansion)
+            for a, b in zip(exp, exp[1:]):
+                if not (a.is_term and b.is_term and str(a.name) in lits):
+                    continue
+                n += 1
+                t = g.terminals.get(str(b.name))
+                pat_ = getattr(t, "pattern", None)
+                val = getattr(pat_, "value", "") if type(pat_).__name__ == "PatternStr" else ""
+                rep.check(not (val and val.isalpha()), "C15.o", f"grammar:{origin}", f"{a.name} followed by {b.name}",
+                          f"rule `{origin}` spells a literal as the terminal {a.name} followed by the keyword \"{val}\": ignorable text is allowed between them, so inside a concat-expression "
+                          f"`\"x\" {val}` (a string followed by the name {val}) is read as the suffixed literal - a macro whose match argument is called {val} does not behave like its expansion")
+    rep.count("literal_followed_by_terminal_pairs", n)
+
+
+_run_o15 = run
+
+
+def run(ctx, rep, tier):
+    _run_o15(ctx, rep, tier)
+    _no_literal_split_across_tokens(ctx, rep, tier)
